@@ -70,9 +70,33 @@ func c04InitNames() {
 			break
 		}
 	}
+	// n4: a third name in n1's bucket; n6, n7: two names of a third bucket
+	for i := 0; ; i++ {
+		n := c04Pad(fmt.Sprintf("n4-%d", i))
+		if rt.V1Hash(n) == b1 {
+			c04Names["n4"] = n
+			break
+		}
+	}
+	var b3 uint32
+	for i := 0; ; i++ {
+		n := c04Pad(fmt.Sprintf("n6-%d", i))
+		if h := rt.V1Hash(n); h != b1 && h != b2 {
+			c04Names["n6"] = n
+			b3 = h
+			break
+		}
+	}
+	for i := 0; ; i++ {
+		n := c04Pad(fmt.Sprintf("n7-%d", i))
+		if rt.V1Hash(n) == b3 {
+			c04Names["n7"] = n
+			break
+		}
+	}
 	for i := 0; len(c04Fillers) < 12; i++ {
 		n := c04Pad(fmt.Sprintf("filler-%d", i))
-		if h := rt.V1Hash(n); h != b1 && h != b2 {
+		if h := rt.V1Hash(n); h != b1 && h != b2 && h != b3 {
 			c04Fillers = append(c04Fillers, n)
 		}
 	}
@@ -124,7 +148,7 @@ func (w *c04World) project() rt.M {
 	}
 	head := rt.M{}
 	tab := w.hdrLen + 4
-	for _, b := range [][2]string{{"b1", "n1"}, {"b2", "n3"}} {
+	for _, b := range [][2]string{{"b1", "n1"}, {"b2", "n3"}, {"b3", "n6"}} {
 		h := rt.V1Hash(c04Names[b[1]])
 		head[b[0]] = w.slotOf(binary.LittleEndian.Uint32(data[tab+4*h:]))
 	}
@@ -163,7 +187,7 @@ func (w *c04World) project() rt.M {
 		done[t.Name] = t.State == rt.Done
 	}
 	begun := rt.M{}
-	for _, n := range []string{"n1", "n2", "n3"} {
+	for _, n := range []string{"n1", "n2", "n3", "n4", "n6", "n7"} {
 		begun[n] = w.begun[n]
 	}
 	problems := dec.Problems
@@ -312,6 +336,33 @@ func c04One(t *testing.T, run *c04Run) {
 	for _, e := range run.Schedule {
 		if strings.HasPrefix(e, "kill:") {
 			doKill(e[5:])
+			continue
+		}
+		if i := strings.Index(e, ">>"); i > 0 {
+			// "task>>fn|kind|k": run the task until it is suspended, for the k-th time, in front
+			// of an operation `kind` whose call chain contains fn ("done|x|1": until it ends)
+			tk := s.Task(e[:i])
+			parts := strings.Split(e[i+2:], "|")
+			if tk == nil || len(parts) < 3 {
+				continue
+			}
+			want := 1
+			fmt.Sscanf(parts[2], "%d", &want)
+			seen := 0
+			for n := 0; n < 600 && alive && s.Runnable(tk); n++ {
+				if tk.Steps > 0 && strings.Contains(tk.Label, parts[0]) && tk.Kind == parts[1] {
+					seen++
+					if seen >= want {
+						break
+					}
+				}
+				if !doStep(tk) {
+					alive = false
+				}
+			}
+			if !alive {
+				break
+			}
 			continue
 		}
 		tk := s.Task(e)
